@@ -172,6 +172,8 @@ def run(ctx):
     else:
         ctx.mark_unproved(fq_m, "cannot identify the regex call made by FilesParagraph.matches (%r)" % (how,))
     ctx.solve()
+    from props import C17 as _c17
+    _c17.verify_space_separated(ctx, real)        # what assigning a pattern list to `files` stores
     bounded(ctx, real, rng)
     ctx.level = "other"
     ctx.extra["pattern_lists"] = len(lists)
@@ -207,6 +209,18 @@ def bounded(ctx, real, rng):
         rx_ = "".join(".*" if c == "*" else "." if c == "?" else re.escape(c) for c in g)
         return re.fullmatch(rx_, name, re.S) is not None
 
+    names += ["vendor/third-party/x", "vendor/third-", "party/x", "lib/a-b/c-d/e", "lib/a-", "b/c-d/e"]
+
+    pending = []           # names to ask for next (after a long list was stored)
+
+    def pick_globs():
+        if rng.random() < 0.2:
+            # a long pattern list with hyphenated patterns at every column (whatever layout the stored text gets, the patterns
+            # are the ones that were set)
+            pending.extend(["vendor/third-party/x", "vendor/third-", "lib/a-b/c-d/e", "party/x"])
+            return ["p" * rng.randint(1, 75)] * rng.randint(1, 2) + ["vendor/third-party/*", "lib/a-b/c-d/*"] + ["q/" + "r" * rng.randint(1, 40)]
+        return rng.choice(globsets)
+
     evals, nontrivial, samples, fail = 0, set(), [], None
     rounds = 300 if ctx.tier == "quick" else 3000
     for r in range(rounds):
@@ -234,10 +248,11 @@ def bounded(ctx, real, rng):
                             operations=ops, got=[type(o).__name__ for o in objs])
                 break
             ops.append(["parsed", text])
+        del pending[:]
         for step in range(rng.randint(2, 7)):
-            op = rng.choice(["addf", "addf", "addl", "query", "query", "setfiles"])
+            op = "query" if pending else rng.choice(["addf", "addf", "addl", "query", "query", "setfiles"])
             if op == "addf":
-                gs = rng.choice(globsets)
+                gs = pick_globs()
                 fp = real.FilesParagraph.create(list(gs), "c", real.License("L"))
                 c.add_files_paragraph(fp)
                 last = max([i for i, m in enumerate(model) if m is not None], default=-1)
@@ -252,12 +267,12 @@ def bounded(ctx, real, rng):
                 ops.append(["add_license_paragraph"])
             elif op == "setfiles" and any(m is not None for m in model):
                 i = rng.choice([i for i, m in enumerate(model) if m is not None])
-                gs = rng.choice(globsets)
+                gs = pick_globs()
                 objs[i].files = list(gs)
                 model[i] = list(gs)
                 ops.append(["set files", i, gs])
             else:
-                name = rng.choice(names)
+                name = pending.pop(0) if pending else rng.choice(names)
                 ops.append(["find_files_paragraph", name])
                 evals += 1
                 must_raise = any(m is not None and illegal(m) for m in model)
@@ -290,7 +305,7 @@ def bounded(ctx, real, rng):
         if len(samples) < 3 and len(ops) >= 4:
             samples.append(ops)
     ctx.bounded("B-16 find_files_paragraph over documents and histories (add / set files / query)", evals, len(nontrivial),
-                "seeded histories of 2-7 operations over 9 glob lists (two with an illegal escape: every query must raise, also the second time) and 11 file names (incl. names with newline, prefix-of-pattern "
+                "seeded histories of 2-7 operations over 11 glob lists plus long generated lists with hyphenated patterns (two with an illegal escape: every query must raise, also the second time) and 11 file names (incl. names with newline, prefix-of-pattern "
                 "names); reference model: index of the last Files paragraph with a matching glob; non-trivial = distinct "
                 "(document, name) with a match", "%d histories" % rounds, samples)
     if fail:
